@@ -10,7 +10,7 @@ From stdpp Require Import gmap.
 From Coq Require Import NArith Bool.
 From RV Require Import Ingress.IngressModel Rib.RibModel Bmp.BmpModel.
 From RV Require Import Filter.FilterLang Filter.FilterGlue Filter.FilterUnits Filter.FilterProofs.
-From RV Require Pipe.PipeModel E2e.E2eModel E2e.E2eProofs.
+From RV Require Pipe.PipeModel E2e.E2eModel E2e.E2eProofs E2e.E2eIngress.
 From RV Require Import Filter.FilterFetch Filter.FilterFetchProofs.
 Local Open Scope N_scope.
 
@@ -372,6 +372,50 @@ Theorem C10_unit_filter_is_script_of_its_load : forall s0 h,
   forall r, E2eModel.es_rib2 st = Some r -> named !! E2eModel.ru_born r = Some (E2eModel.ru_filter r).
 Proof. exact E2eProofs.unit_filter_is_script_of_its_load. Qed.
 Print Assumptions C10_unit_filter_is_script_of_its_load.
+
+(* the ingress units' own filters (E2e/E2eIngress.v): the bmp-in filter a bmp-tcp-in unit holds and the bgp-in filter
+   a bgp-tcp-in unit holds are those of the script that the configuration named when the unit was started, whatever
+   was edited and loaded since *)
+Theorem C10_ingress_filter_is_script_of_its_load : forall s0 n0 f0 h,
+  let st := E2eIngress.g_run (E2eIngress.g_init s0 n0 f0) h in
+  let named := f0 :: E2eIngress.g_named f0 h in
+  named !! (E2eIngress.ig_bmp (E2eIngress.g_ig st)).2 = Some (E2eIngress.ig_bmp (E2eIngress.g_ig st)).1 /\
+  named !! (E2eIngress.ig_bgp (E2eIngress.g_ig st)).2 = Some (E2eIngress.ig_bgp (E2eIngress.g_ig st)).1.
+Proof. exact E2eIngress.ingress_filter_is_script_of_its_load. Qed.
+Print Assumptions C10_ingress_filter_is_script_of_its_load.
+
+(* ... also for a bmp-tcp-in unit that a reload takes out and a later one starts again (and the one next to it) *)
+Theorem C10_restarted_ingress_filter_is_script_of_its_load : forall s0 n0 f0 h,
+  let st := E2eIngress.j_run (E2eIngress.j_init s0 n0 f0) h in
+  let named := f0 :: E2eIngress.j_named f0 h in
+  named !! (E2eIngress.ig_bmp (E2eIngress.j_ig st)).2 = Some (E2eIngress.ig_bmp (E2eIngress.j_ig st)).1 /\
+  named !! (E2eIngress.ig_bmp2 (E2eIngress.j_ig st)).2 = Some (E2eIngress.ig_bmp2 (E2eIngress.j_ig st)).1.
+Proof. exact E2eIngress.j_ingress_filter_is_script_of_its_load. Qed.
+Print Assumptions C10_restarted_ingress_filter_is_script_of_its_load.
+
+Theorem C10_reload_starts_ingress_unit_with_new_script : forall st,
+  E2eModel.is_run (E2eIngress.j_i st) = false -> E2eModel.is_want (E2eIngress.j_i st) = true ->
+  E2eIngress.ig_bmp (E2eIngress.j_ig (E2eIngress.j_step st (E2eIngress.JI (E2eModel.IE E2eModel.EReload)))) =
+    (E2eIngress.ig_file (E2eIngress.j_ig st), length (E2eIngress.ig_named (E2eIngress.j_ig st))) /\
+  E2eModel.is_run (E2eIngress.j_i (E2eIngress.j_step st (E2eIngress.JI (E2eModel.IE E2eModel.EReload)))) = true.
+Proof. exact E2eIngress.reload_starts_ingress_unit_with_new_script. Qed.
+Print Assumptions C10_reload_starts_ingress_unit_with_new_script.
+
+(* a message the unit's filter rejects is no operation end to end: sessions, register, RIB units, counters and the
+   property's reading are what they would be had it never been sent *)
+Theorem C10_ingress_rejected_is_noop : forall st o h,
+  E2eIngress.g_rejected (E2eIngress.g_ig st) o = true ->
+  E2eIngress.g_run st (E2eIngress.GB o :: h) = E2eIngress.g_run st h.
+Proof. exact E2eIngress.rejected_is_noop. Qed.
+Print Assumptions C10_ingress_rejected_is_noop.
+
+(* ... for whole histories: the pipeline behind the start-up script's ingress filters is the pipeline model on the
+   history without the messages those filters reject - whatever the later loads name (the units are not restarted) *)
+Theorem C10_ingress_filtered_run_is_run_of_survivors : forall s0 n0 f0 h,
+  E2eIngress.g_b (E2eIngress.g_run (E2eIngress.g_init s0 n0 f0) h) =
+  E2eModel.b_run (E2eModel.b_init s0 n0) (omap (E2eIngress.g_survives f0) h).
+Proof. exact E2eIngress.filtered_run_is_run_of_survivors. Qed.
+Print Assumptions C10_ingress_filtered_run_is_run_of_survivors.
 
 (* a unit that runs since start-up filters with the start-up script whatever is edited and reloaded later *)
 Theorem C10_first_unit_keeps_startup_filter : forall lg s0 h,
